@@ -21,6 +21,9 @@ Lemma g_rec_tax : G.tax_recorded_on_transfer = true.                Proof. refle
 Lemma g_rec_amount : G.amount_recorded_on_transfer = true.          Proof. reflexivity. Qed.
 Lemma g_refund : G.refund_includes_tax = true.                      Proof. reflexivity. Qed.
 Lemma g_burn : G.burn_includes_tax = true.                          Proof. reflexivity. Qed.
+Lemma g_gov_tax t : G.gov_tax_token t = t.                             Proof. reflexivity. Qed.
+Lemma g_gov_limit t : G.gov_limit_token t = t.                         Proof. reflexivity. Qed.
+Lemma g_exact_denom : G.settings_keyed_by_exact_denom = true.          Proof. reflexivity. Qed.
 Lemma g_blocks_pos : 0 < G.blocks_DAILY /\ 0 < G.blocks_WEEKLY /\ 0 < G.blocks_MONTHLY /\ 0 < G.blocks_YEARLY.
 Proof. repeat split; reflexivity. Qed.
 
@@ -582,7 +585,7 @@ Proof.
   - unfold execute_raw in ER. destruct (find_batch _ _ _); [|discriminate].
     destruct (_ <? _); [discriminate|]. now inversion ER.
   - unfold unbatch_raw in ER. destruct (find_batch _ _ _); [|discriminate]. now inversion ER.
-  - unfold settax_raw in ER. destruct ok; simpl in ER; [|discriminate].
+  - unfold settax_raw in ER. rewrite g_gov_tax in ER. destruct ok; simpl in ER; [|discriminate].
     destruct (0 <=? num) eqn:EN; [|discriminate]. apply Z.leb_le in EN.
     inversion ER; subst. unfold tax_wf, set_tax. simpl. intros tk tc. unfold upd.
     destruct (tk =? tok); [intros H; inversion H; subst; simpl; simpl in HO; lia | apply WF].
@@ -597,6 +600,94 @@ Qed.
 
 Lemma tax_wf_init bals mp : tax_wf (init bals mp).
 Proof. unfold tax_wf, init. simpl. discriminate. Qed.
+
+(** ** Configuration = what governance submitted, verbatim, under exactly the submitted token.
+    [cfg_tax tok cur o]: the tax settings of [tok] after operation [o] when they were [cur] before,
+    read off the operation alone: only an accepted proposal for exactly [tok] replaces them. *)
+Definition cfg_tax (tok : Z) (cur : option taxcfg) (o : op) : option taxcfg :=
+  match o with
+  | SetTax t ok num den ex =>
+      if (t =? tok) && ok && (0 <=? num) then Some {| tc_num := num; tc_den := den; tc_exempt := ex |} else cur
+  | _ => cur
+  end.
+Definition cfg_limit (tok : Z) (cur : option limcfg) (o : op) : option limcfg :=
+  match o with
+  | SetLimit t limit p ex => if t =? tok then Some {| lc_limit := limit; lc_period := p; lc_exempt := ex |} else cur
+  | _ => cur
+  end.
+
+Lemma step_cfg tok o s :
+  taxes (step s o) tok = cfg_tax tok (taxes s tok) o /\ limits (step s o) tok = cfg_limit tok (limits s tok) o.
+Proof.
+  unfold step, deliver. destruct (raw o s) as [s1 r] eqn:ER.
+  destruct o; simpl in ER.
+  - destruct r; simpl; auto.
+    apply send_ok_inv in ER as (_ & _ & _ & s2 & tax & HL & _ & _ & _ & ->).
+    apply limit_step_frame in HL as (_ & _ & _ & _ & _ & _ & _ & _ & Htx & Hl & _).
+    unfold lock. simpl. now rewrite Hl, Htx.
+  - destruct r; simpl; auto.
+    unfold cancel_raw in ER. destruct (id <? 1); [discriminate|].
+    destruct (find_tx id (pool s)); [|discriminate].
+    destruct (negb _); [discriminate|]. destruct (_ <? _); [discriminate|]. now inversion ER.
+  - destruct r; simpl; auto.
+    unfold batch_raw in ER. destruct (negb _); [discriminate|].
+    destruct (filter _ _); inversion ER; auto.
+  - destruct r; simpl; auto.
+    unfold execute_raw in ER. destruct (find_batch _ _ _); [|discriminate].
+    destruct (_ <? _); [discriminate|]. now inversion ER.
+  - destruct r; simpl; auto.
+    unfold unbatch_raw in ER. destruct (find_batch _ _ _); [|discriminate]. now inversion ER.
+  - unfold settax_raw in ER. rewrite g_gov_tax in ER. simpl cfg_tax. simpl cfg_limit.
+    destruct (ok && (0 <=? num)) eqn:EO.
+    + inversion ER; subst; clear ER. simpl. unfold upd. rewrite (Z.eqb_sym tok0 tok).
+      destruct (tok =? tok0); simpl.
+      * destruct ok; [|discriminate]. simpl in EO. rewrite EO. auto.
+      * auto.
+    + inversion ER; subst; clear ER. simpl. split; auto.
+      destruct (tok0 =? tok); simpl; auto. destruct ok; simpl in *; auto. now rewrite EO.
+  - unfold setlimit_raw in ER. rewrite g_gov_limit in ER. inversion ER; subst; clear ER. simpl.
+    unfold upd. rewrite (Z.eqb_sym tok0 tok). destruct (tok =? tok0); auto.
+Qed.
+
+(** (P) configured_is_applied, over histories: the settings a send of token [tok] meets after any
+    history are those of the last accepted proposal whose submitted token is exactly [tok] —
+    proposals for any other token (a spelling that differs in case or blanks is another token)
+    never touch them. *)
+Lemma cfg_run tok ops s :
+  taxes (run s ops) tok = fold_left (cfg_tax tok) ops (taxes s tok) /\
+  limits (run s ops) tok = fold_left (cfg_limit tok) ops (limits s tok).
+Proof.
+  revert s. induction ops as [|o ops IH]; intros s; [split; reflexivity|].
+  simpl. destruct (IH (step s o)) as [I1 I2]. destruct (step_cfg tok o s) as [S1 S2].
+  now rewrite I1, I2, S1, S2.
+Qed.
+
+Lemma cfg_other_token tok t' cur1 cur2 ok num den ex limit p ex2 : t' <> tok ->
+  cfg_tax tok cur1 (SetTax t' ok num den ex) = cur1 /\ cfg_limit tok cur2 (SetLimit t' limit p ex2) = cur2.
+Proof.
+  intros H. simpl. destruct (t' =? tok) eqn:E; [apply Z.eqb_eq in E; contradiction|]. auto.
+Qed.
+
+(** one accepted proposal, then a send of exactly that token: cost and limit are the submitted ones *)
+Lemma settax_then_send tok num den ex s s1 h snd a mal s2 :
+  deliver (SetTax tok true num den ex) s = (s1, Ok) -> 0 < den ->
+  deliver (Send h snd tok a mal) s1 = (s2, Ok) -> tax_wf s ->
+  bal s2 snd tok = bal s snd tok - (a + (if (num =? 0) || mem snd ex then 0 else a * num / den)) /\
+  (forall t', t' <> tok -> taxes s1 t' = taxes s t').
+Proof.
+  intros H1 Hden H2 WF.
+  assert (HO : op_wf (SetTax tok true num den ex)) by exact Hden.
+  pose proof (step_tax_wf _ _ WF HO) as WF1. unfold step in WF1. rewrite H1 in WF1. simpl in WF1.
+  destruct (send_cost _ _ _ _ _ _ _ WF1 H2) as (_ & Hb & _).
+  apply deliver_ok in H1. simpl in H1. unfold settax_raw in H1. rewrite g_gov_tax in H1.
+  destruct (true && (0 <=? num)) eqn:EO; [|discriminate]. inversion H1; subst s1; clear H1.
+  split.
+  - rewrite Hb. simpl bal. f_equal. f_equal.
+    unfold spec_tax. simpl taxes. rewrite upd_same. simpl.
+    destruct (num =? 0) eqn:EN; simpl; [|reflexivity].
+    apply Z.eqb_eq in EN. subst num. destruct (mem snd ex); auto. rewrite Z.mul_0_r. apply Z.div_0_l. lia.
+  - intros t' Ht. simpl. now apply upd_other.
+Qed.
 
 (** (P) over histories: every transfer pending at the end carries exactly the amount and the tax
     computed when the accepted send created it (so cancel refunds and execution burns THAT tax). *)
@@ -654,3 +745,11 @@ Example ex_keeper_level_not_atomic :
   r2 = Err EFunds /\ usages s2 0 = Some {| u_total := 100; u_start := 10 |} /\
   fst (deliver (Send 10 3 0 100 false) s) = s.
 Proof. vm_compute. auto. Qed.
+
+(** two tokens whose names differ only in case (5 = ".../WETH", 6 = ".../weth"): independent settings *)
+Example ex_twins :
+  let s := run (init [(0, 5, 2000); (0, 6, 2000)] [5; 6])
+    [SetTax 5 true 1 10 []; SetTax 6 true 1 2 []; SetLimit 5 1000 PDaily [];
+     Send 10 0 5 600 false; Send 10 0 6 600 false; Send 11 0 5 600 false; Send 11 0 6 600 false; Send 11 0 5 400 false] in
+  (bal s 0 5, bal s 0 6, usages s 6, option_map u_total (usages s 5)) = (2000 - 660 - 440, 2000 - 900 - 900, None, Some 1000).
+Proof. vm_compute. reflexivity. Qed.
